@@ -33,10 +33,10 @@ ASSUMPTIONS = ['front-end protocol read from app/src/components/proof/ProofArea.
                'Z3 stubbed (z3wrapper.check_z3 = False) as in server.monitor; Z3Method.search returns [] so it is never suggested',
                'an application that needed an invented term parameter (s, param_*) is never counted as failing outright',
                'visibility of earlier lines re-implemented from ItemID.can_depend_on; trivial pattern re-implemented on shadows']
-REQUIRED = {'quick': {'searches': 800, 'suggestions_applied': 2000, 'applied_ok': 1800, 'goal_adverts_checked': 800,
-                      'fact_adverts_checked': 400, 'solving_adverts_checked': 100, 'asked_for_parameters': 200,
-                      'gen_states': 150, 'lib_states': 120, 'searches_with_2_facts': 100,
-                      'advertised_goal_closed_by_existing_line': 40, 'ok:induction': 100, 'ok:apply_backward_step': 200},
+REQUIRED = {'quick': {'searches': 900, 'suggestions_applied': 2600, 'applied_ok': 2500, 'goal_adverts_checked': 1000,
+                      'fact_adverts_checked': 800, 'solving_adverts_checked': 110, 'asked_for_parameters': 450,
+                      'gen_states': 200, 'lib_states': 150, 'searches_with_2_facts': 130,
+                      'advertised_goal_closed_by_existing_line': 60, 'ok:induction': 400, 'ok:apply_backward_step': 350},
             'thorough': {'searches': 12000, 'suggestions_applied': 40000, 'applied_ok': 30000, 'goal_adverts_checked': 15000,
                          'fact_adverts_checked': 8000, 'solving_adverts_checked': 1500, 'asked_for_parameters': 3000,
                          'gen_states': 2500, 'lib_states': 2500, 'searches_with_2_facts': 1500,
@@ -52,8 +52,8 @@ def shards(tier, seed):
         return ([{'kind': 'lib', 'i': i, 'parts': 12, 'units': 14, 'searches': 200, 'per_thm': 8} for i in range(12)] +
                 [{'kind': 'gen', 'i': i, 'theories': ths, 'states': 70} for i, ths in
                  enumerate([['logic', 'nat'], ['set', 'list'], ['logic', 'function', 'set'], ['nat', 'real']])])
-    return ([{'kind': 'lib', 'i': i, 'parts': 32, 'units': 220, 'searches': 2500, 'per_thm': 24} for i in range(32)] +
-            [{'kind': 'gen', 'i': i, 'theories': [GEN_THEORIES[i % len(GEN_THEORIES)]], 'states': 450} for i in range(12)])
+    return ([{'kind': 'lib', 'i': i, 'parts': 32, 'units': 150, 'searches': 2500, 'per_thm': 24} for i in range(32)] +
+            [{'kind': 'gen', 'i': i, 'theories': [GEN_THEORIES[i % len(GEN_THEORIES)]], 'states': 350} for i in range(12)])
 
 
 # ------------------------------------------------------------------ shadows of sequents, state walking
